@@ -3,6 +3,7 @@
 // except the schedule explorers, which drive real threads and live here.
 mod evalsrv;
 mod hostsrv;
+mod intr;
 mod parsesrv;
 mod rcmc;
 mod util;
